@@ -239,3 +239,25 @@ Proof.
         destruct C2 as [C2|C2]; [discriminate|]. apply Nat.ltb_ge in C2.
         destruct C1 as [C1|C1]; [apply Nat.leb_gt in C1; lia | apply Nat.ltb_ge in C1; apply Nat.ltb_ge; lia].
 Qed.
+
+(* ---- contents are bytes ---- *)
+Definition isbyte (z : Z) : Prop := (0 <= z < 256)%Z.
+Definition bytes (m : list Z) : Prop := Forall isbyte m.
+Lemma get_byte m i : bytes m -> isbyte (get m i).
+Proof.
+  intros B. unfold get. destruct (Nat.lt_ge_cases i (length m)) as [H|H].
+  - apply (proj1 (Forall_forall _ _) B). apply nth_In. exact H.
+  - rewrite nth_overflow by exact H. unfold isbyte. lia.
+Qed.
+Lemma bytes_tab n f : (forall i, isbyte (f i)) -> bytes (tab n f).
+Proof. intros H. unfold bytes, tab. apply Forall_forall. intros x Hx. apply in_map_iff in Hx. destruct Hx as (i & <- & _). apply H. Qed.
+Lemma bytes_rd m a k : bytes m -> bytes (rd m a k).
+Proof. intros B. apply bytes_tab. intros i. apply get_byte. exact B. Qed.
+Lemma bytes_touch m a k : bytes m -> bytes (touch m a k).
+Proof. intros B. apply bytes_tab. intros i. apply get_byte. exact B. Qed.
+Lemma bytes_upd m a bs : bytes m -> bytes bs -> bytes (upd m a bs).
+Proof. intros B1 B2. apply bytes_tab. intros i. destruct ((a <=? i) && (i <? a + length bs)); apply get_byte; assumption. Qed.
+Lemma bytes_mcopy m d s k : bytes m -> bytes (mcopy_mem m d s k).
+Proof. intros B. unfold mcopy_mem. apply bytes_upd; [apply bytes_touch | apply bytes_rd]; exact B. Qed.
+Lemma bytes_repeat0 k : bytes (repeat 0%Z k).
+Proof. unfold bytes. apply Forall_forall. intros x Hx. apply repeat_spec in Hx. subst. unfold isbyte. lia. Qed.
